@@ -157,6 +157,7 @@ def main(tier, seed):
     from framework import Runner, Query
     import itertools
     R = Runner('C15', tier, seed); R.setup()
+    R.blocks = models_str.STD_BLOCKS if tier == 'quick' else None       # quick: names over Latin, CJK, fullwidth and pictograph blocks; thorough: all of Unicode
     c01.load_keywords(R)
     R.assumptions += ['slot patterns: all 32; cast API: 4 punctuations x budgets of 0..3 symbolic numbers in [0,1], symbolic name char; printed casts: sentence shapes of shapes.py with symbolic names']
     R.run_query(Query('table', 'c15', 'path_table', [dict(bits=list(b)) for b in itertools.product([0, 1], repeat=5)], 'all 2^5 filled-slot patterns, enum and lexical'), confirm, key_of)
